@@ -71,7 +71,9 @@ impl Distribution<f64> for Exp1 {
         }
         #[inline]
         fn zero_case<R: Rng + ?Sized>(rng: &mut R, _u: f64) -> f64 {
-            ziggurat_tables::ZIG_EXP_R - rng.random::<f64>().ln()
+            // `random::<f64>()` is in `[0, 1)`; use `1 - u` in `(0, 1]` so that the
+            // logarithm is finite (`u = 0` would give an infinite sample).
+            ziggurat_tables::ZIG_EXP_R - (1.0 - rng.random::<f64>()).ln()
         }
 
         ziggurat(
